@@ -48,17 +48,37 @@ def table(path):
                 pb.correct_position(vec)
                 if got != want / 8.0 or vec[idx] != want / 8.0:
                     fails.append(dict(what=mode + " correct_position", L=L, arg=p, got=[got, vec[idx]], want=want / 8.0))
-            for l, s, want in tab["sep"]:
-                if l != L:
-                    continue
+            # separations: all three components carry lattice values (the other two from rows of their own box length), the
+            # reference / target lists are long-lived objects updated in place, and must come back unchanged
+            lens8 = [L, L, L] if mode == "cubic" else [int(round(x * 8)) for x in lens]
+            by_len = {}
+            for l, s_, want in tab["sep"]:
+                by_len.setdefault(l, []).append((s_, want))
+            ref = [0.125] * dim
+            tgt = [0.125] * dim
+            inplace = [0.0] * dim
+            for k, (s_, want) in enumerate(by_len.get(L, [])):
                 n += 2
-                got = pb.correct_separation_entry(s / 8.0, idx)
-                ref = [0.125] * dim
-                tgt = [0.125] * dim
-                tgt[idx] = 0.125 + s / 8.0
+                got = pb.correct_separation_entry(s_ / 8.0, idx)
+                wants = [None] * dim
+                for j in range(dim):
+                    if j == idx:
+                        sj, wj = s_, want
+                    else:
+                        rows_j = by_len[lens8[j]]
+                        sj, wj = rows_j[(7 * k + 3 * j) % len(rows_j)]
+                    tgt[j] = 0.125 + sj / 8.0
+                    inplace[j] = sj / 8.0
+                    wants[j] = wj / 8.0
+                before = (list(ref), list(tgt))
                 sv = pb.separation_vector(ref, tgt)
-                if got != want / 8.0 or sv[idx] != want / 8.0 or any(sv[j] != 0.0 for j in range(dim) if j != idx):
-                    fails.append(dict(what=mode + " separation", L=L, arg=s, got=[got, sv], want=want / 8.0))
+                pb.correct_separation(inplace)
+                if got != want / 8.0 or list(sv) != wants or inplace != wants:
+                    fails.append(dict(what=mode + " separation", L=L, arg=[round((t - 0.125) * 8) for t in tgt],
+                                      got=[got, list(sv), list(inplace)], want=wants))
+                if (list(ref), list(tgt)) != before:
+                    fails.append(dict(what=mode + " separation_vector changed its arguments", L=L, arg=s_, got=[ref, tgt], want=before))
+                    ref, tgt = list(before[0]), list(before[1])
             if pb.next_image(0.375, idx) != 0.375 + L / 8.0:
                 fails.append(dict(what=mode + " next_image", L=L))
     setting.reset()
